@@ -23,10 +23,10 @@ NoncesDistinct ==
     \A s \in DOMAIN sent : \A i, j \in 1..Len(sent[s]) :
         (i < j /\ sent[s][i].ep = sent[s][j].ep) => sent[s][i].nonce # sent[s][j].nonce
 
-\* without hook jumps the i-th message (from 0) carries sequence number i
-CountsSeals ==
-    \A s \in DOMAIN sent : \A i \in 1..Len(sent[s]) :
-        sent[s][i].ep = 0 => sent[s][i].seq = SmallSeq(i - 1)
+\* consecutive successful seals carry consecutive sequence numbers (between two hook jumps)
+ConsecutiveSeqs ==
+    \A s \in DOMAIN sent : \A i \in 2..Len(sent[s]) :
+        sent[s][i].ep = sent[s][i - 1].ep => sent[s][i].seq = ByteInc(sent[s][i - 1].seq)
 
 \* a successful seal/open moves the counter up by exactly one, or sets the latch at 2^64-1:
 \* the counter never wraps
